@@ -83,7 +83,7 @@ def selection(repo: Repo, chk: Check) -> None:
     # the list that is ranked: SrvRecord objects appended in the loop over the answer
     for r in rets:
         site = Site.of(f, r)
-        spec = ordertab.selection_spec(r.value)
+        spec = ordertab.selection_spec(_as_sorted_selection(repo, f, r.value))
         if spec is not None:
             coll, sp = spec
             ok = sp == WANT_SPEC
@@ -93,6 +93,37 @@ def selection(repo: Repo, chk: Check) -> None:
         # hand written scan: `best` updated under a comparison between candidate and best
         ok, why = scan_selection(f, r)
         chk.ob("O2", site, ok, why)
+
+
+def _key_lambda(repo: Repo, f: Func, key: t.Optional[ast.expr]) -> t.Optional[ast.expr]:
+    """A key given as the name of a one-expression function is read as the equivalent lambda."""
+    if isinstance(key, ast.Name):
+        r = repo.resolve_name(key.id, f.mod)
+        if isinstance(r, Func):
+            body = [b for b in r.node.body if not (isinstance(b, ast.Expr) and isinstance(b.value, ast.Constant))]
+            if len(body) == 1 and isinstance(body[0], ast.Return) and body[0].value is not None and len(r.params) == 1:
+                return ast.Lambda(args=r.node.args, body=body[0].value)
+    return key
+
+
+def _as_sorted_selection(repo: Repo, f: Func, e: ast.expr) -> ast.expr:
+    """`xs.sort(key=K[, reverse=R]); return xs[i]` is the selection `sorted(xs, key=K, reverse=R)[i]`; named keys become lambdas."""
+    import copy
+
+    e = copy.deepcopy(e)
+    if isinstance(e, ast.Subscript) and isinstance(e.value, ast.Name):
+        name = e.value.id
+        sorts = [n for n in body_nodes(f.node) if isinstance(n, ast.Call) and isinstance(n.func, ast.Attribute) and n.func.attr == "sort" and isinstance(n.func.value, ast.Name) and n.func.value.id == name]
+        others = [n for n in body_nodes(f.node) if isinstance(n, ast.Call) and isinstance(n.func, ast.Attribute) and n.func.attr in ("reverse", "insert", "pop", "remove") and isinstance(n.func.value, ast.Name) and n.func.value.id == name]
+        if len(sorts) == 1 and not others and not sorts[0].args:
+            call = ast.Call(func=ast.Name(id="sorted", ctx=ast.Load()), args=[ast.Name(id=name, ctx=ast.Load())], keywords=copy.deepcopy(sorts[0].keywords))
+            e = ast.Subscript(value=call, slice=e.slice, ctx=ast.Load())
+    for n in ast.walk(e):
+        if isinstance(n, ast.Call):
+            for kw in n.keywords:
+                if kw.arg == "key":
+                    kw.value = t.cast(ast.expr, _key_lambda(repo, f, kw.value))
+    return ast.fix_missing_locations(e)
 
 
 def scan_selection(f: Func, ret: ast.Return) -> t.Tuple[bool, str]:
@@ -175,44 +206,50 @@ def mapping(repo: Repo, chk: Check) -> None:
     rets = [n for n in body_nodes(f.node) if isinstance(n, ast.Return) and n.value is not None]
     if apps and rets:
         lst = unparse(apps[0].func.value)  # type: ignore[attr-defined]
-        spec = ordertab.selection_spec(rets[0].value)
+        spec = ordertab.selection_spec(_as_sorted_selection(repo, f, rets[0].value))
         okc = spec is None or spec[0] == lst
         chk.ob("O3", Site.of(f, rets[0]), okc, f"ranks the converted records ({lst})" if okc else f"ranks {spec[0] if spec else '?'} instead of the converted records {lst}")
 
 
 def use_sites(repo: Repo, chk: Check) -> None:
+    from sa.pathsum import Summary
+
+    from .util import ev_args
+
     apis = {
-        "_client.ncrypt_unprotect_secret": ("lookup_dc", "blob.key_identifier.domain_name"),
-        "_client.async_ncrypt_unprotect_secret": ("async_lookup_dc", "blob.key_identifier.domain_name"),
-        "_client.ncrypt_protect_secret": ("lookup_dc", "domain_name"),
-        "_client.async_ncrypt_protect_secret": ("async_lookup_dc", "domain_name"),
+        "_client.ncrypt_unprotect_secret": ("lookup_dc", "_sync_get_key", "DPAPINGBlob.unpack(data).key_identifier.domain_name"),
+        "_client.async_ncrypt_unprotect_secret": ("async_lookup_dc", "_async_get_key", "DPAPINGBlob.unpack(data).key_identifier.domain_name"),
+        "_client.ncrypt_protect_secret": ("lookup_dc", "_sync_get_key", "domain_name"),
+        "_client.async_ncrypt_protect_secret": ("async_lookup_dc", "_async_get_key", "domain_name"),
     }
-    for q, (fn, arg) in apis.items():
+    for q, (fn, rpc, arg) in apis.items():
         f = repo.func(q)
         chk.analysed(f)
-        g = build(f.node)
-        rd = ReachingDefs(f, g)
-        calls = [n for n in body_nodes(f.node) if isinstance(n, ast.Call) and unparse(n.func) == fn]
-        chk.count("lookup use sites", len(calls))
-        site = Site.of(f, calls[0] if calls else None, None if calls else f"{f.name}: {fn} call")
-        if len(calls) != 1:
-            chk.ob("O4", site, False, f"{f.name} calls {fn} {len(calls)} times")
-            continue
-        c = calls[0]
-        oka = len(c.args) == 1 and unparse(c.args[0]) == arg
-        chk.ob("O4", site, oka, f"looks up the DC of {arg}" if oka else f"{fn}({', '.join(map(unparse, c.args))}) does not use {arg}")
-        nid = rd.node_of(c)
-        guards = g.guards_of(nid) if nid is not None else []
-        okg = any(unparse(e) == "server" and pol is False for e, pol in guards)
-        chk.ob("O4", site, okg, "lookup only when no server was given" if okg else "the DNS lookup is not guarded by 'server not given'")
-        # server = <lookup result>.target
-        asg = [n for n in body_nodes(f.node) if isinstance(n, ast.Assign) and unparse(n.targets[0]) == "server"]
-        oks = False
-        for a in asg:
-            v = a.value
-            if isinstance(v, ast.Attribute) and v.attr == "target" and isinstance(v.value, ast.Name):
-                d = rd.single_def(v.value.id, a)
-                inner = d.value.value if d is not None and isinstance(d.value, ast.Await) else (d.value if d is not None else None)
-                if inner is c:
-                    oks = True
-        chk.ob("O4", site, oks, "server := target of the selected record" if oks else "the selected record's target is not what becomes the server")
+        summ = Summary(f, prune=True)  # public API
+        nsites = 0
+        for ps in summ.returning():
+            looks = ps.calls(fn)
+            rpcs = ps.calls(rpc)
+            for r in rpcs:
+                srv = ev_args(repo, f, r).get("server")
+                stxt = ps.text(srv)
+                if not looks:
+                    ok = stxt == "server"
+                    chk.ob("O4", Site.of(f, r.node, "server given"), ok, "the caller's server is used as is" if ok else f"without a lookup the RPC goes to {stxt}")
+                    continue
+            if len(looks) > 1:
+                chk.ob("O4", Site.of(f, looks[1].node), False, f"{f.name} calls {fn} {len(looks)} times on one path")
+                continue
+            if not looks:
+                continue
+            nsites += 1
+            c = looks[0]
+            site = Site.of(f, c.node)
+            a = [ps.text(x) for x in ev_args(repo, f, c).values()]
+            oka = a == [arg]
+            chk.ob("O4", site, oka, f"looks up the DC of {arg}" if oka else f"{fn}({', '.join(a)}) does not use {arg}")
+            okg = "not (server)" in ps.facts(before=c)
+            chk.ob("O4", site, okg, "lookup only when no server was given" if okg else "the DNS lookup is not guarded by 'server not given'")
+            oks = bool(rpcs) and all(ps.key(ev_args(repo, f, r).get("server")) == f"{ps.key(c.tree)}.target" for r in rpcs)
+            chk.ob("O4", site, oks, "server := target of the selected record" if oks else "the selected record's target is not what becomes the server")
+        chk.count("lookup use sites", 1 if nsites else 0)
